@@ -435,8 +435,11 @@ pub fn run_world(spec: &SchedSpec, n: usize, yield_mode: u8, stack_kib: usize, b
     assert!(IN_WORLD.load(Ordering::Relaxed) == 0, "worlds do not nest");
     YIELD_MODE.store(yield_mode, Ordering::Relaxed);
     *EVENTS.lock().unwrap() = Some(EventLog { fp: Fp::new(), n: 0, last_task: usize::MAX, switches_seen: 0 });
-    // stamps are relative to the run: one seed = one repeatable execution, wherever it runs
+    // stamps and hit counters are relative to the run: one seed = one repeatable execution,
+    // wherever it runs and whatever ran before it in the same process
     STEP.store(0, Ordering::Relaxed);
+    LIB_HITS.store(0, Ordering::Relaxed);
+    LIB_YIELDS.store(0, Ordering::Relaxed);
     let step0 = 0;
     RDV_SITE.store(if let SchedKind::Rendezvous { site, .. } = &spec.kind { *site } else { 0 }, Ordering::Relaxed);
     for p in PARKED.iter() {
